@@ -22,6 +22,7 @@ type genValue struct {
 
 func anyValue(rt *rapid.T, budget int) genValue {
 	g := gen.New(rt, budget)
+	g.LateGrowth = true
 	gv := genValue{labels: g.Labels}
 	switch gen.Pick(rt, "value_family", 12) {
 	case 0, 1:
